@@ -361,6 +361,11 @@ pub struct RenderOpts {
     pub split_include: Option<String>,
     /// Optional per-path spelling function index (C13 variants); 0 = canonical.
     pub spell_seed: u64,
+    /// Non-zero: some paths on build lines are written as `$pvN`, bound in the statement's own block;
+    /// a file-level variable of the same name (with another value) is shadowed by it.
+    pub shadow_seed: u64,
+    /// A `subninja` file that binds `builddir` (private to that file: nothing may change).
+    pub sub_builddir: bool,
 }
 
 /// Produce a non-canonical spelling that canonicalises to `p` and keeps the
@@ -420,8 +425,25 @@ impl Project {
             head.push_str(&format!("pool {}\n  depth = {}\n", n, d));
         }
         let mut stmts: Vec<String> = Vec::new();
+        let mut shadow_rng = Rng::new(opts.shadow_seed);
+        let mut shadow_count = 0usize;
+        let mut shadow_head = String::new();
         for s in &self.steps {
             let mut t = String::new();
+            let mut block_binds: Vec<(String, String)> = Vec::new();
+            // a path token, sometimes spelled through a block variable that shadows a file-level one
+            let mut tok = |p: &str, rng: &mut Rng, block_binds: &mut Vec<(String, String)>| -> String {
+                let text = spell(p, rng);
+                if opts.shadow_seed != 0 && block_binds.len() < 2 && shadow_rng.chance(1, 6) {
+                    shadow_count += 1;
+                    let name = format!("pv{}", shadow_count);
+                    shadow_head.push_str(&format!("{} = shadowed/elsewhere{}\n", name, shadow_count));
+                    block_binds.push((name.clone(), text));
+                    if shadow_rng.chance(1, 2) { format!("${}", name) } else { format!("${{{}}}", name) }
+                } else {
+                    text
+                }
+            };
             let rule = if s.phony {
                 "phony".to_string()
             } else {
@@ -469,39 +491,39 @@ impl Project {
             t.push_str("build");
             for o in &s.outs {
                 t.push(' ');
-                t.push_str(&spell(o, &mut rng));
+                t.push_str(&tok(o, &mut rng, &mut block_binds));
             }
             if !s.iouts.is_empty() {
                 t.push_str(" |");
                 for o in &s.iouts {
                     t.push(' ');
-                    t.push_str(&spell(o, &mut rng));
+                    t.push_str(&tok(o, &mut rng, &mut block_binds));
                 }
             }
             t.push_str(&format!(": {}", rule));
             for i in &s.ins {
                 t.push(' ');
-                t.push_str(&spell(i, &mut rng));
+                t.push_str(&tok(i, &mut rng, &mut block_binds));
             }
             if !s.imps.is_empty() {
                 t.push_str(" |");
                 for i in &s.imps {
                     t.push(' ');
-                    t.push_str(&spell(i, &mut rng));
+                    t.push_str(&tok(i, &mut rng, &mut block_binds));
                 }
             }
             if !s.oos.is_empty() {
                 t.push_str(" ||");
                 for i in &s.oos {
                     t.push(' ');
-                    t.push_str(&spell(i, &mut rng));
+                    t.push_str(&tok(i, &mut rng, &mut block_binds));
                 }
             }
             if !s.vals.is_empty() {
                 t.push_str(" |@");
                 for i in &s.vals {
                     t.push(' ');
-                    t.push_str(&spell(i, &mut rng));
+                    t.push_str(&tok(i, &mut rng, &mut block_binds));
                 }
             }
             t.push('\n');
@@ -509,6 +531,9 @@ impl Project {
                 if let Some(p) = &s.pool {
                     t.push_str(&format!("  job_pool = {}\n", p));
                 }
+            }
+            for (n, v) in &block_binds {
+                t.push_str(&format!("  {} = {}\n", n, v));
             }
             if opts.noise {
                 t.push('\n');
@@ -541,6 +566,16 @@ impl Project {
             tail.push('\n');
         }
         let mut files = Vec::new();
+        let mut head = head;
+        head.push_str(&shadow_head);
+        if opts.sub_builddir {
+            // before or after everything else, by the spelling seed's parity
+            if opts.perm_seed % 2 == 0 {
+                head.push_str("subninja vendored.ninja\n");
+            } else {
+                tail.push_str("subninja vendored.ninja\n");
+            }
+        }
         match &opts.split_include {
             None => {
                 let mut text = head;
@@ -565,6 +600,9 @@ impl Project {
                 files.push((self.manifest.clone(), text));
                 files.push((inc.clone(), sub));
             }
+        }
+        if opts.sub_builddir {
+            files.push(("vendored.ninja".to_string(), "builddir = vend\nrule vendored_cc\n  command = true\n".to_string()));
         }
         files
     }
